@@ -225,3 +225,39 @@ func ZZ_C04_history_sparse_4_T() { zzHistory(1, 4) }
 func ZZ_C04_history_pag_4_T()    { zzHistory(2, 4) }
 func ZZ_C05_history_lowest_4_T() { zzHistory(3, 4) }
 func ZZ_C05_history_highest_4_T() { zzHistory(4, 4) }
+
+// round 3: read - clear - refill with AS MANY distinct bins - read (a cache keyed by the number of bins, or
+// anything else a read leaves behind, must not survive Clear); all store kinds
+func zzReadClearRefill(kind int) {
+	zzvBound("read-clear-refill", "from a new store: 1-2 unit/weighted additions at a symbolic page-aligned base, full observation, Clear, the same number of additions at other indexes, full observation")
+	zzvMapOrders(2)
+	base := 32*zzvMInt("pageBase", -(1<<25), 1<<25) + []int{0, 30}[zzvChoose("alignment", 2)]
+	s := zzNewKind(kind)
+	g := &zzGhost{}
+	n := 1 + zzvChoose("bins", 2)
+	first := []int{0, 5}
+	second := [][]int{{7, 2}, {-3, 33}}[zzvChoose("refill", 2)]
+	for k := 0; k < n; k++ {
+		s.AddWithCount(base+first[k], []float64{1, 2.5}[k])
+		g.add(base+first[k], []float64{1, 2.5}[k])
+	}
+	zzObserveAll(s, g, kind, "before-clear")
+	s.Clear()
+	g = &zzGhost{}
+	if zzvChoose("observeCleared", 2) == 1 {
+		zzObserveAll(s, g, kind, "cleared")
+	}
+	for k := 0; k < n; k++ {
+		s.AddWithCount(base+second[k], []float64{2.5, 1}[k])
+		g.add(base+second[k], []float64{2.5, 1}[k])
+	}
+	zzvCover("history")
+	zzObserveAll(s, g, kind, "end")
+}
+func ZZ_C14_read_clear_refill_sparse() { zzReadClearRefill(1) }
+func ZZ_C14_read_clear_refill_pag()    { zzReadClearRefill(2) }
+func ZZ_C15_read_clear_refill_sparse() { zzReadClearRefill(1) }
+func ZZ_C15_read_clear_refill_dense()  { zzReadClearRefill(0) }
+func ZZ_C15_read_clear_refill_pag()    { zzReadClearRefill(2) }
+func ZZ_C15_read_clear_refill_lowest() { zzReadClearRefill(3) }
+func ZZ_C04_read_clear_refill_sparse() { zzReadClearRefill(1) }
